@@ -36,3 +36,9 @@ Theorem C09_direct_cycle_rejected : forall t w v,
   lookup t w = Some v -> words v = [w] -> words w = [w] -> resolve_line t w = Rejected.
 Proof. exact resolve_direct_cycle. Qed.
 Print Assumptions C09_direct_cycle_rejected.
+
+(* substitution is repeated until no defined symbol remains, and that always ends: the fuel |table| + 1 suffices because
+   every nested or repeated round resolves at least one more symbol and meeting a symbol twice on the way is an error *)
+Theorem C09_substitution_terminates : forall t line, resolve_line t line <> OutOfFuel.
+Proof. exact resolve_line_never_out_of_fuel. Qed.
+Print Assumptions C09_substitution_terminates.
